@@ -1,4 +1,6 @@
 pub mod c05;
+pub mod frame;
+pub mod proj;
 pub mod graph;
 pub mod sets;
 
@@ -13,6 +15,10 @@ pub fn run(prop: &str, tier: &str) -> Option<Report> {
         "C08" => sets::run(8, tier),
         "C09" => sets::run(9, tier),
         "C10" => sets::run(10, tier),
+        "C15" => proj::run_c15(tier),
+        "C16" => proj::run_c16(tier),
+        "C18" => frame::run_c18(tier),
+        "C19" => frame::run_c19(tier),
         _ => return None,
     })
 }
@@ -24,6 +30,9 @@ pub fn replay(prop: &str, case: &Value) -> Option<Vec<Viol>> {
         "C08" => sets::replay(8, case),
         "C09" => sets::replay(9, case),
         "C10" => sets::replay(10, case),
+        "C15" => proj::replay_c15(case),
+        "C16" => proj::replay_c16(case),
+        "C18" => frame::replay_c18(case),
         _ => return None,
     })
 }
